@@ -1,20 +1,24 @@
 import json, os
 
 SPEC = {
-    "lean_modules": ["SemaModel.C20.Props", "SemaModel.C20.Formula", "SemaModel.C20.FormulaPQ", "SemaModel.C20.FormulaBQ"],
+    "lean_modules": ["SemaModel.C20.Props", "SemaModel.C20.Formula", "SemaModel.C20.FormulaPQ", "SemaModel.C20.FormulaPQFit", "SemaModel.C20.FormulaPQEncode", "SemaModel.C20.FormulaBQ"],
     "lean_dirs": ["SemaModel/C20"],
     "harness": "c20",
     "harness_args": {"quick": [], "thorough": ["-full"]},
     "timeout": {"quick": 600, "thorough": 2400},
     "level": "proof",
-    "tie": "T1 (formulas): SemaModel/Generated/Distance.lean, PQDist.lean, BQDist.lean are regenerated on every run from distance/distance.go, distance/puredist.go, shard/vectorstore/product.go, shard/vectorstore/binary.go with floats as symbolic expression trees (Go.FExpr: one constructor per Go operation, operands in source order, every conversion written); the formula theorems (dot = -dotImpl, cosine = 1 - dotImpl, the whole haversine tree with its clamp, the two pure Go loops = left-to-right sums, the product quantiser's table and look-up sums, the binary quantiser's choice of bit / float distance) are stated about these definitions, and the driver evaluates the same trees with hardware floats against the real functions (bit for bit; haversine within 1 float32 ulp because the C library's sin/cos/asin may differ from Go's math - measured 0). "
+    "tie": "T1 (formulas): SemaModel/Generated/Distance.lean, PQDist.lean, PQEncode.lean, BQDist.lean are regenerated on every run from distance/distance.go, distance/puredist.go, shard/vectorstore/product.go, shard/vectorstore/binary.go with floats as symbolic expression trees (Go.FExpr: one constructor per Go operation, operands in source order, every conversion written); the formula theorems (dot = -dotImpl, cosine = 1 - dotImpl, the whole haversine tree with its clamp, the two pure Go loops = left-to-right sums, the product quantiser's table and look-up sums, what the per-sub-vector bodies of its Fit() store in centroidDists / flatCentroids (every entry, the diagonal included) and the two quantised distances of a quantiser fitted like that, its encode (running minimum, first nearest centroid), the binary quantiser's choice of bit / float distance) are stated about these definitions, and the driver evaluates the same trees with hardware floats against the real functions (bit for bit; haversine within 1 float32 ulp because the C library's sin/cos/asin may differ from Go's math - measured 0). "
            "T1: the bit-metric theorems are stated about SemaModel/Generated/BitDist.lean (binaryQuantizer.encode, hammingDistance, jaccardDistance), regenerated from shard/vectorstore/binary.go and distance/distance.go on every run; "
            "T2: tools/facts_c20 walks distance/asm/dot.s and euclidean.s on every run (loop bounds, increments, operand pairing, accumulator roles, reduction sequence -> Generated/FactsC20.lean) and facts_dot_pinned / facts_euclidean_pinned prove by `decide` that these are the constants of the hand-written kernel model; "
-           "T3: generated definitions and kernel model are executed against the real functions (distance.GetBitDistanceFn / GetFloatDistanceFn, the tagged export of encode and of the quantizer's distance closures) on the same op lines: exact float32 bit patterns for the bit metrics on every length, exact integers for the kernels on every length and slice offset. "
+           "T3: generated definitions and kernel model are executed against the real functions (distance.GetBitDistanceFn / GetFloatDistanceFn, the tagged export of encode and of the quantizer's distance closures; both quantisers also through their real constructors, Set and Fit() - real k-means, euclidean / dot / cosine - with every table entry, both closures, symmetry and the encodings judged against the definitions, and the generated Fit bodies evaluated against the fitted tables: pqt / pqg lines) on the same op lines: exact float32 bit patterns for the bit metrics on every length, exact integers for the kernels on every length and slice offset. "
            "Agreement of the kernels with the scalar reference 'up to floating-point rounding' is a TEST, not a theorem (sweep: lengths x offsets 0..7 x value distributions vs float64 and scalar float32 references, worst-case rounding bound as tolerance).",
     "required_theorems": [
         # formula theorems (Formula.lean, FormulaPQ.lean; notes/T1ext.md section 8): the expression trees generated from distance.go, puredist.go, product.go
         "Sema.C20.dot_distance_formula", "Sema.C20.cosine_distance_formula", "Sema.C20.haversine_formula", "Sema.C20.haversine_formula_pair", "Sema.C20.dot_pure_formula", "Sema.C20.l2_pure_formula", "Sema.C20.cosine_pure_formula", "Sema.C20.dot_distance_pure_formula", "Sema.C20.pq_centroidDistIdx_formula", "Sema.C20.pq_flatCentroidSlice_formula", "Sema.C20.pq_distance_from_float_formula", "Sema.C20.pq_distance_from_point_formula", "Sema.C20.pq_table_formula", "Sema.C20.pq_quantised_distance_formula",
+        # what Fit() leaves in the two tables (FormulaPQFit.lean: the per-sub-vector bodies of Fit, generated) and the two quantised distances of a fitted quantiser
+        "Sema.C20.pq_centroid_table_formula", "Sema.C20.pq_flat_centroids_formula", "Sema.C20.pq_fit_tables", "Sema.C20.pq_point_distance_formula", "Sema.C20.pq_float_point_consistent",
+        # encode of the product quantiser (FormulaPQEncode.lean over Generated/PQEncode.lean; float32 abstract with a decidable <)
+        "Sema.C20.pq_encode_unfitted", "Sema.C20.pq_encode_formula", "Sema.C20.pq_encode_nearest",
         "Sema.C20.bq_distance_from_float_wiring", "Sema.C20.bq_distance_from_point_wiring", "Sema.C20.bq_trained_hamming", "Sema.C20.bq_untrained_float",
         "Sema.C20.encode_length", "Sema.C20.encode_bits", "Sema.C20.encode_padding", "Sema.C20.encode_unfitted",
         "Sema.C20.hamming_eq_bitcount", "Sema.C20.hamming_encode", "Sema.C20.hamming_symm",
@@ -25,6 +29,8 @@ SPEC = {
     ],
     "trusted_base": [
         "formula theorems fix the EXPRESSION STRUCTURE only: IEEE rounding of each operation, and the values of sin / cos / asin / sqrt, are not interpreted (Go.FExpr is symbolic); dotProductImpl (AVX kernel or pure Go loop, a package variable) is an abstract function parameter of the dot / cosine theorems; math.Pi/180 enters as the bit pattern of the nearest float64, computed by tools/go2lean with exact constant arithmetic (go/constant) as the compiler does; the type assertion behind VectorStorePoint, k-means and the log.Warn() call of binary.go are abstract / left out explicitly",
+        "Fit() of the product quantiser: k-means (its result kmeans.Centroids is a parameter), the goroutine fan-out / WaitGroup and the write of the labels into the cached points are NOT translated; the theorems hold for every sequential order of the per-sub-vector bodies and show that they write disjoint blocks (frame clauses) - that concurrent bodies writing disjoint blocks give the same tables is argued, not proved; the generated fill loops take fuel (one unit per loop-condition evaluation, 2K+1 suffice); parameters of a fragment are assumed not to alias (the two tables are fresh makes in Fit)",
+        "encode of the product quantiser: float32 is an abstract type with a decidable <, math.MaxFloat32 an abstract value; pq_encode_nearest assumes < irreflexive and transitive (true of IEEE <, NaN included); the codes Fit() itself assigns are k-means labels (not translated, not judged)",
         "SemaModel/Base/Float.lean F32.gt: IEEE-754 `>` on float32 bit patterns (NaN compares false, -0 = +0); validated against Go's `>` on all pairs of a boundary pool and random pairs ('f32gt' op lines) on every run",
         "Go.FExpr: the float32 division and subtraction of jaccard (1 - inter/union) and the int->float32 conversions stay symbolic in the theorems; the driver evaluates them with Lean's Float32 (hardware IEEE single precision) and the result is compared bit for bit with Go",
         "the kernel model SemaModel/C20/Model.lean is hand-written from distance/asm/{dot,euclidean}.s (and their avo generators); its tie is tools/facts_c20 (a walk that rejects any instruction it does not expect) plus the exact integer correspondence; the meaning of the AVX instructions themselves (VFMADD231PS, VHADDPS, VEXTRACTF128 ...) is read from the Intel manual, not verified",
